@@ -223,8 +223,14 @@ func (t DPoP) Match(jkt string, method string, url string) (bool, error) {
 	if method != t.HTM() {
 		return false, fmt.Errorf("method mismatch, token: %s, given: %s", t.HTM(), method)
 	}
-	urlLeft := strip(t.HTU())
-	urlRight := strip(url)
+	urlLeft, err := strip(t.HTU())
+	if err != nil {
+		return false, fmt.Errorf("invalid htu claim: %w", err)
+	}
+	urlRight, err := strip(url)
+	if err != nil {
+		return false, fmt.Errorf("invalid url: %w", err)
+	}
 	if urlLeft != urlRight {
 		return false, fmt.Errorf("url mismatch, token: %s, given: %s", urlLeft, urlRight)
 	}
@@ -232,13 +238,16 @@ func (t DPoP) Match(jkt string, method string, url string) (bool, error) {
 	return true, nil
 }
 
-func strip(raw string) string {
-	url, _ := url.Parse(raw)
+func strip(raw string) (string, error) {
+	url, err := url.Parse(raw)
+	if err != nil {
+		return "", err
+	}
 	url.Scheme = "https"
 	url.Host = strings.Split(url.Host, ":")[0]
 	url.RawQuery = ""
 	url.Fragment = ""
-	return url.String()
+	return url.String(), nil
 }
 
 func (t DPoP) MarshalJSON() ([]byte, error) {
